@@ -338,6 +338,7 @@ func runC03(r *core.Run) {
 			r.Violation("cli-"+panicKey(st), fmt.Sprintf("pp exit=%d stderr=%s", res.Exit, core.Trunc(st, 1500)), "cli", &c03Case{Input: c.Input, Opts: strings.Join(args, " ")})
 		}
 	})
+	c03ProgTraces(r)
 	c03Special(r)
 	c03Linear(r)
 	nativeFuzzResult(r)
@@ -495,3 +496,43 @@ func replayC03(r *core.Run, kind string, raw json.RawMessage) {
 }
 
 var _ = runtime.NumCPU
+
+// c03ProgTraces: real tracebacks of generated programs whose sources are on disk, corrupted by the mutation
+// engine and scanned with path guessing and source analysis on: the typed-argument decoder then meets argument
+// shapes that do not match the declared parameters (family (d) of the design: augment inside the crash net).
+func c03ProgTraces(r *core.Run) {
+	np := r.N(3, 24)
+	per := r.N(1500, 20000)
+	for k := 0; k < np; k++ {
+		c := &c19Case{Seed: r.Seed, Idx: 7000 + k, Toolchain: "go"}
+		bp, err := buildAndCrash(c)
+		if err != nil {
+			r.Broken(err.Error())
+			return
+		}
+		opts := c19Opts(bp.goroot, true, k%2 == 0)
+		core.Parallel(per, workers(), func(i int) {
+			rr := core.NewRand(r.Seed, 34, uint64(k*1000003+i))
+			in := gen.Mutate(rr, bp.trace, bp.trace, 1+rr.Intn(5), 1<<20)
+			var p any
+			var st string
+			func() {
+				defer func() {
+					if p = recover(); p != nil {
+						st = string(debug.Stack())
+					}
+				}()
+				s, _, _, _ := scanAll(in, opts)
+				if s != nil {
+					_ = s.Aggregate(stack.AnyPointer)
+				}
+			}()
+			r.Eval(1)
+			if p != nil {
+				r.Violation(panicKey(st), fmt.Sprintf("panic on a corrupted traceback with sources present: %v\n%s", p, core.Trunc(st, 1200)), "mut", &c03Case{Input: in, Opts: "plain", Idx: i})
+			}
+		})
+		r.Count("program_traces_mutated", per)
+		_ = os.RemoveAll(bp.dir)
+	}
+}
